@@ -3,7 +3,7 @@ NK = 3
 Sizes = {1, 2}
 Dlys = {0, 2}
 Ttls = {3}
-MaxMax = 3
+Resizes = {1, 2}
 MaxNow = 2
 MaxEvents = 4
 InitMax = 3
